@@ -57,39 +57,7 @@ impl Drop for Worker {
     }
 }
 
-/// Canonical observation of a run (wall-clock text and scratch paths removed).
-pub fn observe(r: &RunResult, root: &Path) -> Value {
-    let rs = root.display().to_string();
-    let clean = |s: &str| strip_time(s).replace(&rs, "<ROOT>");
-    let mut files = serde_json::Map::new();
-    for (k, v) in &r.files {
-        let s = String::from_utf8_lossy(v);
-        // row order of the two hash-map dumps is unspecified: compare as sorted rows
-        let text = if k.starts_with("unspent") || k.starts_with("balances") {
-            let mut lines: Vec<&str> = s.lines().collect();
-            if lines.len() > 1 {
-                lines[1..].sort();
-            }
-            lines.join("\n")
-        } else {
-            s.into_owned()
-        };
-        let text = if text.len() > 20000 { format!("{}…[{} bytes, sha256 {}]", &text[..2000], text.len(), refmodel::ser::hex(&refmodel::hash::sha256(text.as_bytes()))) } else { text };
-        files.insert(k.clone(), json!(text));
-    }
-    let mut out = clean(&r.stdout);
-    if out.contains("Transaction Types:") {
-        // type lines come from a HashMap: sort the blocks after the marker
-        if let Some(p) = out.find("Transaction Types:") {
-            let (head, tail) = out.split_at(p);
-            let mut blocks: Vec<&str> = tail.split("\n\n").collect();
-            blocks.sort();
-            out = format!("{}{}", head, blocks.join("\n\n"));
-        }
-    }
-    let trunc = |s: String| if s.len() > 20000 { format!("{}…[{} bytes]", &s[..2000], s.len()) } else { s };
-    json!({"code": r.code, "signal": r.signal, "stdout": trunc(out), "stderr": trunc(clean(&r.stderr)), "files": files})
-}
+pub use refmodel::run::observe;
 
 pub fn replay_case(w: &World, spec: &RunSpec, expected: Value, r: &RunResult, root: &Path) -> Value {
     json!({"kind": "e1", "world": w.describe(), "spec": spec.describe(), "expected": expected, "observed": observe(r, root)})
